@@ -532,6 +532,8 @@ def run(ctx) -> None:
     from .c03 import rule_P11, rule_P9
     ctx.rules_run.append("P11")
     rule_P11(ctx)             # user comments cannot break the generated module
+    from .c03 import rule_P11b
+    rule_P11b(ctx)
     ctx.rules_run.append("P9")
     rule_P9(ctx)              # typing imports are recorded on the compiler instance the header renders
     rule_P3(ctx, "pydantic")
